@@ -586,23 +586,24 @@ class Case:
             A = qtn.Tensor(self._rand([tn.ind_size(x) for x in la] + [bd], cplx).astype(self.dtype), inds=la + ["__ob"], tags="OA")
             B = qtn.Tensor(self._rand([bd] + [tn.ind_size(x) for x in lb], cplx).astype(self.dtype), inds=["__ob"] + lb, tags="OB")
             other = qtn.TensorNetwork([A, B])
-            how = r.choice(["t.overlap(tn)", "tn.overlap(t)", "t.overlap(t2)"])
-            rec = {"ev": "overlap2", "name": how, "out": out, "result": [], "scale": self.scale, "exc": "", "exp_other": 0,
-                   "other": [{"inds": list(i), "shape": [int(d) for d in a.shape], "data": snap_garray(a)} for i, a in tn_tensors(other)]}
-            try:
-                if how == "t.overlap(tn)":
-                    v = t.overlap(other)            # <other|t>
-                elif how == "t.overlap(t2)":
-                    t2 = (A @ B)
-                    v = t.overlap(t2)               # <t2|t>
-                else:
-                    # <t|other>: swap the roles so that the spec's <other|self> applies: conj of the result
-                    v = np.conj(other.overlap(t))
-                rec["result"] = snap_garray(np.asarray(v).reshape(-1), self.tol, 10.0 ** rec["scale"])
-                rec["_mag"] = abs(complex(v)) * 10.0 ** rec["scale"]
-            except Exception as ex:  # noqa
-                rec["exc"] = type(ex).__name__; rec["excmsg"] = str(ex)[:300]
-            self.log(rec)
+            # (all three spellings on the same pair: they are cheap and each has its own code path)
+            for how in ("t.overlap(tn)", "tn.overlap(t)", "t.overlap(t2)"):
+                rec = {"ev": "overlap2", "name": how, "out": out, "result": [], "scale": self.scale, "exc": "", "exp_other": 0,
+                       "other": [{"inds": list(i), "shape": [int(d) for d in a.shape], "data": snap_garray(a)} for i, a in tn_tensors(other)]}
+                try:
+                    if how == "t.overlap(tn)":
+                        v = t.overlap(other)            # <other|t>
+                    elif how == "t.overlap(t2)":
+                        t2 = (A @ B)
+                        v = t.overlap(t2)               # <t2|t>
+                    else:
+                        # <t|other>: swap the roles so that the spec's <other|self> applies: conj of the result
+                        v = np.conj(other.overlap(t))
+                    rec["result"] = snap_garray(np.asarray(v).reshape(-1), self.tol, 10.0 ** rec["scale"])
+                    rec["_mag"] = abs(complex(v)) * 10.0 ** rec["scale"]
+                except Exception as ex:  # noqa
+                    rec["exc"] = type(ex).__name__; rec["excmsg"] = str(ex)[:300]
+                self.log(rec)
         elif kind == "scaled":
             c = r.choice([[2, 0], [-1, 0], [3, 0]] + ([[1, 1], [0, 2], [1, -2]] if cplx else []))
             cc = complex(c[0], c[1]) if cplx else float(c[0])
